@@ -186,7 +186,30 @@ package parser
 //@   modifies scannercell(r.inputScanner)
 //@   ensures limit_forwarded: scmax(r.inputScanner) == maxSize && !scstarted(r.inputScanner) && scdone(r.inputScanner) == old(scdone(r.inputScanner)) && scerr(r.inputScanner) == old(scerr(r.inputScanner))
 
+// Parser.split is the split function handed to the scanner: splitFunc's contract carried through unchanged, plus
+// the rule that makes "the BOM is removed only at offset 0 of the stream" hold: the scanner's windows start at
+// offset 0 until the first call that advances (assumed scanner contract), so a first token that is shorter than
+// the advance was preceded by skipped blank lines and must keep its first bytes.
+//@ func Parser.split
+//@   requires r != nil && r.fieldScanner != nil
+//@   modifies r.consumed, r.fieldScanner.removeBOM
+//@   ensures never_fails: err == nil
+//@   ensures within_the_window: 0 <= advance && advance <= len(data)
+//@   ensures no_token_without_advance: advance == 0 ==> len(token) == 0
+//@   ensures only_complete_events_before_eof: !atEOF && advance > 0 ==> eventend(data, advance)
+//@   ensures eof_flushes_the_rest: atEOF && len(data) > 0 ==> advance == len(data) || eventend(data, advance)
+//@   ensures token_is_a_slice_of_the_window: advance > 0 ==> len(token) <= advance && token == substr(data, advance - len(token), advance)
+//@   ensures only_blank_lines_are_skipped: advance > 0 ==> forall(j, 0, advance - len(token), isNL(data[j]))
+//@   ensures token_starts_with_content: advance > 0 && len(token) > 0 ==> !isNL(token[0])
+//@   ensures complete_event_has_content: !atEOF && advance > 0 ==> len(token) > 0
+//@   ensures first_token_after_skipped_bytes_keeps_its_bom: !old(r.consumed) && advance > 0 && advance != len(token) ==> !r.fieldScanner.removeBOM
+//@   ensures bom_option_untouched_otherwise: old(r.consumed) || advance == 0 || advance == len(token) ==> r.fieldScanner.removeBOM == old(r.fieldScanner.removeBOM)
+//@   ensures consumed_tracks_the_first_advance: r.consumed == (old(r.consumed) || advance > 0)
+//@   ensures rest_of_field_parser_untouched: r.fieldScanner.data == old(r.fieldScanner.data) && r.fieldScanner.started == old(r.fieldScanner.started) && r.fieldScanner.err == old(r.fieldScanner.err)
+
 //@ func New
+//@   ensures nothing_consumed_yet: !result.consumed
+//@   ensures scanner_cuts_with_the_parsers_split: scsplitis(result.inputScanner, "parser.Parser.split") && scsplitrecv(result.inputScanner) == result
 //@   ensures fresh_parser: result != nil && fresh(result) && fresh(result.fieldScanner) && result.inputScanner != nil && result.fieldScanner != nil && !scstarted(result.inputScanner) && !scdone(result.inputScanner) && scmax(result.inputScanner) == 0
 //@   ensures field_parser_configured: result.fieldScanner.removeBOM && !result.fieldScanner.keepComments && result.fieldScanner.err == nil && result.fieldScanner.data == "" && !result.fieldScanner.started
 
